@@ -211,7 +211,7 @@ def run_batch(ctx, exe, progs, label, runs, seed, nws='0,1,2', pct=3, maxsteps=3
             # name the program that did not terminate and the state it spins in
             st = info['stuck']
             s = st.get('s') or {}
-            what = '%s [%s: program %r on a %s-thread pool never completes (%s)%s]' % (
+            what = '%s [%s; in this batch program %r on a %s-thread pool never completes (%s)%s]' % (
                 WHAT, label, progs[st['p'] - 1], st.get('nw'), 'step bound' if st['e'] == 'Stalled' else 'deadlock',
                 ('; a task sits in the central queue while the pool\'s queue hint reads empty: no thread inside a wait() looks into the queue'
                  if s.get('cq', 0) > 0 and s.get('flag') == 0 else ''))
@@ -252,6 +252,17 @@ def run(ctx):
     if thorough:
         ctx.check_model(SPEC, 'MCNested.tla', 'MC_nest_nofix_forkjoin.cfg', WHAT, workers=4, extra=nogen, vacuity_exempt=vac,
                         timeout=3000, label='own-children fork-join / futures / loops terminate even with the original waiters')
+        # the lossy central-queue hint made explicit (NestedHint.tla): idle workers trust it, threads inside a wait do
+        # not - no starved state with or without time-outs; negative control: waiters that trust it starve on the
+        # stale-hint cross wait (the programs of STALE_HINT) although time-outs exist
+        for cfg, lab in (('MC_nest_hint_to.cfg', 'time-outs repair the hint'), ('MC_nest_hint_noto.cfg', 'nothing repairs the hint')):
+            ctx.check_model(SPEC, 'MCNestedHint.tla', cfg, WHAT, workers=4, extra=nogen, timeout=3000,
+                            required=('ObserveEmpty', 'ClearHint', 'HSleep') + (('HTimeout',) if cfg.endswith('_to.cfg') else ()),
+                            label='explicit queue hint, waiters poll the central queue unconditionally (%s): no starved state' % lab)
+        hneg = ctx.tlc(SPEC, 'MCNestedHint.tla', 'MC_nest_hint_gate.cfg', workers=4, extra=nogen, count=False,
+                       label='negative control: waiters that trust the queue hint must starve (stale hint, every pool thread in a nested wait)')
+        if hneg.violation != 'Invariant NoHStarvation':
+            raise vlib.ToolError('negative control did not fail: waiters gated by the queue hint no longer starve (%s)' % hneg.violation)
 
     # E4 + E3 -------------------------------------------------------------------------------------
     rng = random.Random(ctx.seed)
